@@ -63,11 +63,16 @@ def run_command(cmd, cwd, read_file):
         return 0, ()
     if c == b'false':
         return 1, ()
-    if parts[0] == b'cat' and len(parts) == 2:
-        data = read_file(norm(posixpath.join(cwd, parts[1])))
-        if data is None:
-            return 1, ()
-        return 0, tuple(data)
+    if parts[0] == b'cat' and len(parts) >= 2 and all(parts[1:]):
+        out = ()
+        code = 0
+        for f in parts[1:]:
+            data = read_file(norm(posixpath.join(cwd, f)))
+            if data is None:
+                code = 1                  # cat: f: No such file or directory (the other files are still printed)
+            else:
+                out += tuple(data)
+        return code, out
     raise ProjectError('command outside the modelled vocabulary: %r' % c)
 
 
@@ -90,6 +95,8 @@ class Expect:
         self.processed = []
         self.allowed = set()
         self.commands = []
+        self.kinds = set()       # why the run is expected to fail: 'cycle' (only dependency cycles) / 'other'
+        self.built = []          # (source, output) of the sources the reference semantics completes
 
 
 def spec_project(ctx, files, dirs, inputs, recursive, mode, trailing, base=BASE):
@@ -197,16 +204,38 @@ def spec_project(ctx, files, dirs, inputs, recursive, mode, trailing, base=BASE)
         ex.processed.append(src)
         out = out_of(src)
         ex.allowed.add(out)
-        r = specpp.process(cc, tuple(fs[src]), FileEnv(src, stack), trailing)
+        fenv = FileEnv(src, stack)
+        # "FILE_PATH.txtpp will be preprocessed first": every dependency of the source is complete before the source is
+        # processed (a command placed before the dependency line may therefore already see the fresh file)
+        failed = None
+        for a in specpp.dep_targets(cc, tuple(fs[src])):
+            try:
+                fenv._dep(a)
+            except specpp.SpecError as e:
+                failed = failed or e          # the other dependencies are still required files: they are built all the same
+        if failed is not None:
+            done[src] = False
+            ex.ok = False
+            ex.kinds.add('cycle' if 'cycle' in str(failed) or 'dependency failed' in str(failed) else 'other')
+            ex.error = ex.error or ('%s: %s' % (src.decode(), failed))
+            # its first pass may have run up to the first dependency line: temp targets are legitimately touched
+            for t in specpp.temp_targets_all(cc, tuple(fs[src])):
+                if is_conc(t) and not specnames.is_txtpp_name(cc, tuple(t)):
+                    ex.allowed.add(norm(posixpath.join(dir_of(src), bytes(t))))
+            return
+        r = specpp.process(cc, tuple(fs[src]), fenv, trailing)
         done[src] = r.ok
         if not r.ok:
             ex.ok = False
+            ex.kinds.add('other')
             ex.error = ex.error or ('%s: %s' % (src.decode(), r.error))
             return
+        ex.built.append((src, out))
         if mode == 'Verify':
             cur = fs.get(out)
             if cur is None or len(cur) != len(r.output) or not specpp.beq(cc, tuple(cur), tuple(r.output)):
                 ex.ok = False
+                ex.kinds.add('other')
                 ex.error = ex.error or ('%s: output is not up to date' % src.decode())
         else:
             fs[out] = tuple(r.output)
@@ -288,6 +317,45 @@ def layout(ctx, name):
             b'/w/z.txt.txtpp': T(b'z\n'),
         }
         dirs = {b'/w'}
+    elif name.startswith('gen'):
+        # m.txt.txtpp: n lines, each drawn from a menu of text / directive lines that may depend on the generated files a.txt
+        # (plain source), b.txt (includes a.txt) and on m.txt itself (cycle)
+        n = int(name[3:])
+        menu = [T(b't') + (x0,), T(b'-TXTPP#include a.txt'), T(b'-TXTPP#after a.txt'), T(b'#TXTPP#run cat a.txt'), T(b'#TXTPP#run echo R'),
+                T(b'-TXTPP#tag T'), T(b'uT') + (x1,), T(b'+TXTPP#write w'), T(b'+TXTPP#temp t.tmp'), T(b'+k'),
+                T(b'-TXTPP#include plain.txt'), T(b'-TXTPP#include b.txt'), T(b'-TXTPP#include m.txt'), T(b'#TXTPP#run cat b.txt')]
+        src = ()
+        picks = []
+        for i in range(n):
+            k = ctx.choose(len(menu), 'gen%d' % i)
+            picks.append(k)
+            src += menu[k] + T(b'\n')
+        files = {
+            b'/w/m.txt.txtpp': src,
+            b'/w/a.txt.txtpp': T(b'a\n#TXTPP#run echo A\n'),
+            b'/w/b.txt.txtpp': T(b'-TXTPP#include a.txt\nb\n'),
+            b'/w/plain.txt': T(b'p\n'),
+        }
+        dirs = {b'/w'}
+        return files, dirs, {'x0': syms_of((x0,)), 'x1': syms_of((x1,)), 'picks': picks}
+    elif name == 'tempinc':
+        # a source that writes a temp file and includes it again; the tree holds the temp file and the output of an OLDER version of
+        # the source (history: build, edit the body of the temp directive, do not rebuild)
+        files = {
+            b'/w/v.txt.txtpp': T(b'#TXTPP#temp f.inc\n#new') + (x0,) + T(b'\n#\n-TXTPP#include f.inc\n+TXTPP#run cat f.inc\nend') + (x1,) + T(b'\n'),
+            b'/w/f.inc': T(b'old\n'),
+            b'/w/v.txt': T(b'old\nold\nend') + (x1,) + T(b'\n'),
+        }
+        dirs = {b'/w'}
+    elif name == 'big':
+        # outputs larger than the 8 KiB buffers of BufReader / BufWriter, lines straddling the 8192 boundary; an included file of 9000 bytes
+        line = T(b'0123456789abcdefghijklmnopqrstuvwxyz....\n')          # 41 bytes
+        files = {
+            b'/w/big.txt.txtpp': line * 199 + T(b'y') + (x0,) + T(b'\n') + line * 230,
+            b'/w/inc.txt.txtpp': T(b'-TXTPP#include blob\nz') + (x1,) + T(b'\n'),
+            b'/w/blob': T(b'B' * 8999 + b'\n'),
+        }
+        dirs = {b'/w'}
     else:
         raise KeyError(name)
     return files, dirs, {'x0': syms_of((x0,)), 'x1': syms_of((x1,))}
@@ -316,6 +384,8 @@ def h_project(m, ctx, lay, inputs, mode='Build', recursive=False, trailing=True,
     files, dirs, symdesc = layout(ctx, lay)
     files = stale_outputs(files, pre)
     it = Interp(m, ctx)
+    if lay == 'big':
+        it.max_loop_visits = 20000          # one iteration of the line loop per source line (430 lines), byte loops over 9000 bytes
     env = Env(it, cwd=BASE)
     it.env = env
     for d in sorted(dirs):
@@ -372,8 +442,16 @@ def h_project(m, ctx, lay, inputs, mode='Build', recursive=False, trailing=True,
                 check_bytes_equal(ctx, tuple(a), tuple(b), '%s: content of %s differs from the reference semantics' % (md, p.decode()), d2)
             ref_fs = {p: tuple(c) for p, c in exp.fs.items()}
         else:
-            # a failed run may leave partial results: continue from the implementation's tree, restricted to what it may touch
             snap = env.snapshot()
+            if exp.kinds == {'cycle'} and md in ('Build', 'InMemoryBuild'):
+                # C05: the failure is a dependency cycle only: every required file that cannot reach the cycle is still built
+                for src_, out_ in exp.built:
+                    got_ = snap.get(out_.decode('latin1'))
+                    if got_ is None or got_[0] != 'file':
+                        violation(ctx, '%s: %s cannot reach the cycle but was not built in the failing run' % (md, out_.decode()), d2)
+                    check_bytes_equal(ctx, tuple(got_[1]), tuple(exp.fs[out_]),
+                                      '%s: %s cannot reach the cycle but its content differs from the reference semantics' % (md, out_.decode()), d2)
+            # a failed run may leave partial results: continue from the implementation's tree, restricted to what it may touch
             ref_fs = {k.encode('latin1'): tuple(v[1]) for k, v in snap.items() if v[0] == 'file' and k != '/bin/sh'}
     if compare_trailing:
         ctx.cover('project_trailing_%s' % trailing)
@@ -390,12 +468,15 @@ def replay(native, v):
     model = d.get('model', {})
 
     class _C:
-        """layout() with the model's bytes"""
+        """layout() with the model's bytes and the recorded menu picks"""
         def __init__(self):
-            self.k = 0
+            self.picks = list(d.get('sym', {}).get('picks', []))
 
         def fresh_byte(self, name, dom):
             return model.get(name, 120)
+
+        def choose(self, n, label):
+            return self.picks.pop(0)
     files, dirs, _ = layout(_C(), d['layout'])
     files = stale_outputs(files, d.get('pre', 'none'))
     root = tempfile.mkdtemp(prefix='replay-proj-', dir=build.scratch_dir())
@@ -446,6 +527,11 @@ def replay(native, v):
         if outside:
             bad = True
             st['changed outside the allowed set'] = outside
+        if rc not in (0, 'HANG') and exp.kinds == {'cycle'} and md in ('Build', 'InMemoryBuild'):
+            missing = [o.decode() for s_, o in exp.built if after.get(o) != exp.fs.get(o)]
+            if missing:
+                bad = True
+                st['not built although they cannot reach the cycle'] = missing
         if rc == 0 and exp.ok:
             diff = [p.decode() for p in sorted(set(after) | set(exp.fs)) if after.get(p) != exp.fs.get(p)]
             if diff:
@@ -470,36 +556,57 @@ ALL = ('.', True)
 
 def _job(prop, name, lay, steps, trailing=True, pre='none', threads=2):
     st = [(md, list(inp), rec) for md, inp, rec in steps]
-    return {'name': 'project[%s] %s' % (lay, name), 'harness': (H, 'h_project'),
+    return {'name': 'project[%s] %s' % (lay, name), 'harness': (H, 'h_project'), 'split': 16 if lay.startswith('gen') else 1,
             'params': {'lay': lay, 'inputs': st[0][1], 'recursive': st[0][2], 'trailing': trailing, 'pre': pre, 'history': st, 'threads': threads}}
 
 
 def jobs(prop, tier):
     B, N, V, C = 'Build', 'InMemoryBuild', 'Verify', 'Clean'
     js = []
+    G = 3 if tier == 'quick' else 4
+    gen = 'gen%d' % G
+    gen_small = 'gen%d' % (G - 1)
+    if prop == 'C05':
+        # (only m is named: a command that reads a generated file it does not depend on has no defined order w.r.t. that file's build)
+        js.append(_job(prop, 'every %d-line source over the dependency menu (self-include = cycle)' % G, gen, [(B, ['m.txt'], False)], pre='stale'))
+        js.append(_job(prop, 'same, needed-build', gen_small, [(N, ['m.txt'], False)], pre='stale'))
+    if prop == 'C03':
+        js.append(_job(prop, 'every %d-line source over the dependency menu: m named three ways' % (G - 1), gen_small,
+                       [(B, ['m.txt', 'm.txt.txtpp', './m.txt'], False)], pre='stale'))
     if prop == 'C02':
         for md in (B, N):
             js.append(_job(prop, '%s r only, stale outputs everywhere' % md, 'multi-dep', [(md, ['r'], False)], pre='stale'))
             js.append(_job(prop, '%s m only, stale outputs' % md, 'chain', [(md, ['m'], False)], pre='stale'))
             js.append(_job(prop, '%s page only, stale outputs' % md, 'deep', [(md, ['page.html'], False)], pre='stale'))
+        for md in (B, N):
+            js.append(_job(prop, '%s: every %d-line source over the dependency menu, stale outputs' % (md, G), gen, [(md, ['m.txt'], False)], pre='stale'))
         js.append(_job(prop, 'Build all, stale outputs', 'multi-dep', [(B, ['.'], False)], pre='stale', threads=4))
         js.append(_job(prop, 'Build all recursive, stale outputs', 'deep', [(B, ['.'], True)], pre='stale', threads=1))
     elif prop == 'C06':
         for lay in ('chain', 'deep'):
             js.append(_job(prop, 'build, verify', lay, [(B, ['.'], True), (V, ['.'], True)]))
             js.append(_job(prop, 'verify stale outputs', lay, [(V, ['.'], True)], pre='stale'))
+        js.append(_job(prop, 'temp file and output of an older version of the source: verify', 'tempinc', [(V, ['v.txt'], False)]))
+        js.append(_job(prop, 'same: build, verify, clean, verify', 'tempinc', [(B, ['v.txt'], False), (V, ['.'], False), (C, ['.'], False), (V, ['.'], False)]))
+        js.append(_job(prop, 'outputs larger than the I/O buffers: build, verify', 'big', [(B, ['.'], False), (V, ['.'], False)]))
+        js.append(_job(prop, 'outputs larger than the I/O buffers: build, needed-build, verify', 'big', [(B, ['.'], False), (N, ['.'], False), (V, ['.'], False)]))
         js.append(_job(prop, 'build all, verify page only (dependencies are verified too)', 'deep', [(B, ['.'], True), (V, ['page.html'], False)]))
+        js.append(_job(prop, 'every %d-line source over the dependency menu: build, verify' % (G - 1), gen_small, [(B, ['m.txt'], False), (V, ['m.txt'], False)], pre='stale'))
+        js.append(_job(prop, 'every %d-line source over the dependency menu: verify stale' % (G - 1), gen_small, [(V, ['m.txt'], False)], pre='stale'))
         js.append(_job(prop, 'build page, verify all: other is missing', 'deep', [(B, ['page.html'], False), (V, ['.'], True)]))
     elif prop == 'C07':
         for lay in ('chain', 'deep'):
             js.append(_job(prop, 'build, clean', lay, [(B, ['.'], True), (C, ['.'], True)]))
         js.append(_job(prop, 'build all, clean page only', 'deep', [(B, ['.'], True), (C, ['page.html'], False)]))
         js.append(_job(prop, 'build all, clean top directory only', 'deep', [(B, ['.'], True), (C, ['.'], False)]))
+        js.append(_job(prop, 'every %d-line source over the dependency menu: build, clean m only' % (G - 1), gen_small, [(B, ['m.txt'], False), (C, ['m.txt'], False)], pre='stale'))
         js.append(_job(prop, 'build all, clean sub only', 'chain', [(B, ['.'], True), (C, ['sub'], False)]))
     elif prop == 'C08':
         for lay in ('chain', 'deep', 'multi-dep'):
             js.append(_job(prop, 'build twice from stale outputs', lay, [(B, ['.'], True), (B, ['.'], True)], pre='stale'))
     elif prop == 'C09':
+        js.append(_job(prop, 'every %d-line source over the dependency menu: needed-build twice from stale outputs' % (G - 1), gen_small,
+                       [(N, ['m.txt'], False), (N, ['m.txt'], False)], pre='stale'))
         for lay in ('chain', 'deep', 'multi-dep'):
             js.append(_job(prop, 'needed-build from stale outputs, then again', lay, [(N, ['.'], True), (N, ['.'], True)], pre='stale'))
             js.append(_job(prop, 'build then needed-build', lay, [(B, ['.'], True), (N, ['.'], True)]))
@@ -524,6 +631,7 @@ def jobs(prop, tier):
         for lay, inp, rec in (('chain', ['.'], True), ('chain', ['m'], False), ('deep', ['page.html'], False), ('multi-dep', ['r'], False)):
             for tr in (False, True):
                 js.append(_job(prop, 'inputs=%s trailing=%s' % (','.join(inp), tr), lay, [('Build', inp, rec)], trailing=tr))
+        js.append(_job(prop, 'every %d-line source over the dependency menu, trailing=False' % G, gen, [(B, ['m.txt'], False)], trailing=False, pre='stale'))
         js.append(_job(prop, 'needed-build trailing=False', 'chain', [(N, ['.'], True)], trailing=False, pre='stale'))
         js.append(_job(prop, 'build on, verify off must fail / build off, verify off', 'chain', [(B, ['m'], False), (V, ['m'], False)], trailing=False))
     elif prop == 'C15':
@@ -531,3 +639,13 @@ def jobs(prop, tier):
         js.append(_job(prop, 'same, whole directory', 'doc', [(B, ['.'], False)]))
         js.append(_job(prop, 'same, verify', 'doc', [(B, ['doc.md'], False), (V, ['doc.md'], False)]))
     return js
+
+
+def bounds_note(prop, tier):
+    n = len(jobs(prop, tier))
+    if not n:
+        return ''
+    g = 3 if tier == 'quick' else 4
+    return ('; whole projects through Txtpp::run with the real preprocess (%d histories over the layouts chain / deep / odd-dirs / doc / '
+            'multi-dep / tempinc / big with 2 symbolic text bytes each, and every %d- resp. %d-line source over the 14-entry dependency menu), '
+            'one fixed schedule, tree compared byte for byte with the project reference semantics' % (n, g, g - 1))
